@@ -86,15 +86,18 @@ class Check(CheckBase):
         for m in range(0, 7 if tier == "quick" else 10):
             cs.append({"label": "L2/len%d" % m, "kind": "L2", "m": m, "split_depth": 6 if m >= 8 else None})
         cs.append({"label": "L2/tol<=0", "kind": "L2tol", "m": 4})
+        # end to end with the real predicate on symbolic vertices (small lists): independent of how supersample is organised
+        for m in ((3,) if tier == "quick" else (3, 4)):
+            cs.append({"label": "E2E/len%d" % m, "kind": "E2E", "m": m, "split_depth": 5})
         return cs
 
     def config(self, tier, case):
-        if case["kind"].startswith("L1"):
-            return engine.Config(logic="QF_NRA", fresh_feas=True, max_decisions=200, ob_rlimit=300_000_000)
+        if case["kind"].startswith("L1") or case["kind"] == "E2E":
+            return engine.Config(logic="QF_NRA", fresh_feas=True, max_decisions=300, ob_rlimit=300_000_000)
         return engine.Config(max_decisions=400)
 
     def expected_reach(self, tier):
-        return ["L1:True", "L1:False", "L1ref", "L2:deleted", "L2:untouched", "L2:tol<=0"]
+        return ["L1:True", "L1:False", "L1ref", "L2:deleted", "L2:untouched", "L2:tol<=0", "E2E:deleted", "E2E:untouched"]
 
     def harness(self, run, case):
         kind = case["kind"]
@@ -122,6 +125,35 @@ class Check(CheckBase):
             md = pu.max_dist_from_n_points(pts)
             run.reach("L1ref")
             run.prove("L1:agrees-with-max_dist_from_n_points", z3.BoolVal(res) == (zreal(md) < tol.t))
+            return
+        if kind == "E2E":
+            m = case["m"]
+            pu = load()
+            vs = [(run.real("x%d" % i), run.real("y%d" % i)) for i in range(m)]
+            tol = run.real("tol")
+            orig = list(vs)
+            try:
+                pu.supersample(vs, tol)
+            except Exception as ex:
+                run.prove("E2E:no-exception", z3.BoolVal(False), info={"raised": repr(ex)[:200]})
+                return
+            pos = {id(v): i for i, v in enumerate(orig)}
+            idxs = [pos.get(id(v)) for v in vs]
+            sub_ok = all(i is not None for i in idxs) and all(x < y for x, y in zip(idxs, idxs[1:]))
+            run.prove("E2E:result-is-in-order-subsequence-of-the-same-objects", z3.BoolVal(bool(sub_ok)))
+            if not sub_ok:
+                return
+            run.prove("E2E:keeps-first-and-last", z3.BoolVal(bool(idxs) and idxs[0] == 0 and idxs[-1] == m - 1))
+            deleted = [i for i in range(m) if i not in idxs]
+            run.reach("E2E:deleted" if deleted else "E2E:untouched")
+            if deleted:
+                run.prove("E2E:nothing-deleted-for-non-positive-tolerance", tol.t > 0)
+            for i in deleted:
+                a = max(k for k in idxs if k < i)
+                b = min(k for k in idxs if k > i)
+                pa, pb, pp = ([c.t for c in orig[k]] for k in (a, b, i))
+                run.prove("E2E:deleted-vertex-is-within-tolerance-of-the-segment-between-its-surviving-neighbours",
+                          z3.And(tol.t > 0, close_term(pp, pa, pb, tol.t)), info={"deleted": i, "between": [a, b]})
             return
         if kind == "L2tol":
             calls = []
@@ -157,7 +189,7 @@ class Check(CheckBase):
         try:
             pu.supersample(vs, 1)
         except Exception as ex:
-            run.prove("L2:no-exception", z3.BoolVal(False), info={"raised": repr(ex)[:200]})
+            run.prove("L2:no-exception", z3.BoolVal(False), info={"raised": repr(ex)[:200]}, soft=True)
             return
         idxs = [pos.get(id(v)) for v in vs]
         sub_ok = all(i is not None for i in idxs) and all(x < y for x, y in zip(idxs, idxs[1:]))
@@ -200,6 +232,37 @@ class Check(CheckBase):
             # the float reference must agree unless the exact distance is within rounding of the tolerance
             if abs(md * md - float(md2)) > 1e-9 * max(1.0, float(md2)):
                 return {"points": [[str(c) for c in p] for p in before], "max_dist_from_n_points": md, "exact_distance2": str(md2)}
+            return None
+        if label.startswith("E2E"):
+            m = int(label.split("len")[1])
+            pts = [(Fraction(i["x%d" % k]), Fraction(i["y%d" % k])) for k in range(m)]
+            tol = Fraction(i["tol"])
+            vs = list(pts)
+            try:
+                pu.supersample(vs, tol)
+            except Exception as ex:
+                return {"points": [[str(c) for c in p] for p in pts], "tol": str(tol), "raised": repr(ex)}
+            desc = {"points": [[str(c) for c in p] for p in pts], "tol": str(tol), "kept": [[str(c) for c in p] for p in vs]}
+            # subsequence by position (duplicates: greedy matching)
+            k = 0
+            kept_idx = []
+            for v in vs:
+                while k < m and pts[k] is not v:
+                    k += 1
+                if k == m:
+                    return desc
+                kept_idx.append(k)
+                k += 1
+            if not kept_idx or kept_idx[0] != 0 or kept_idx[-1] != m - 1:
+                return desc
+            for d in range(m):
+                if d in kept_idx:
+                    continue
+                a = max(x for x in kept_idx if x < d)
+                b = min(x for x in kept_idx if x > d)
+                if tol <= 0 or not dist_py(pts[d], pts[a], pts[b]) < tol * tol:
+                    desc["deleted_vertex"] = d
+                    return desc
             return None
         # L2: replay the decision sequence of the path with a scripted predicate on the native function
         m = int(label.split("len")[1]) if "len" in label else 4
